@@ -3911,7 +3911,7 @@ func r148(c *Ctx, r *R) {
 					ok = true
 				}
 			}
-			r.Check(ok, "import-replaces:"+name, op.Inner.Pos(), "the old state is cleaned before the offline state is opened", name+" opens the offline state before (or without) cleaning the old one: raft's offline state is read from the newest snapshot, so the import adds to the old pinset instead of replacing it")
+			r.Check(ok, "import-replaces:"+name, op.Inner.Pos(), "the old state is cleaned before the offline state is opened", name+" opens the offline state before (or without) cleaning the old one: the offline state is opened on the existing data (raft reads the newest snapshot, crdt the stored heads and blocks), so the import adds to the old pinset instead of replacing it")
 		}
 	}
 	if n == 0 {
